@@ -446,6 +446,18 @@ CLAIMED["C07"]["text"] += _VOX6 + "vox_partition (two calls cut anywhere = one c
 CLAIMED["C04"]["text"] += _VOX6 + "vox_frames_bound: N <= F < N + 2 for every partition into write calls, vox_reopen_delivers_frames."
 CLAIMED["C01"]["text"] += _VOX6 + "vox_write_count (every call reports its count), vox_even_unchanged (even-count callers get the bytes of before)."
 CLAIMED["C10"]["text"] += " Round 6: the class KF.voxOdd is gone from C10_partial (the only excluded class left is rate 0): RAW/VOX_ADPCM writes of an odd number of frames return the count (vox_odd_write_old_rule keeps the old rule)."
+_R6_WBRIDGE = (" Round 6 (write-side bridge): the write-side predicate Sf.AbsWrite.judge is tied to the models by proof: recordOf = the record the campaign would write down if the library behaved like the model "
+               "(calls with the model's return values, closed bytes, re-open through the model's parser, read-back through the model's decoder, a crash point after every header update / auto-mode write, "
+               "stale-frames run); model_session_accepted (SfProps/C01Bridge.lean): accepted (recordOf S) for EVERY Sf.Handle session on RAW / AU / WAV (level A Pred.accepted_of_good + level B handle_pred_good); "
+               "one generic theorem over stand-alone container models (small_pred_good) instantiated for WVE, MAT4, MPC2K, HTK, PVF, AVR (SfProps/C04Bridge.lean); block codecs G.72x / NMS / GSM "
+               "(block_session_accepted, SfProps/C07Bridge.lean: C07 / C04 clauses from *_write_partition / *_frames_at_reopen).")
+for _p in ("C01", "C04", "C07", "C11"):
+    CLAIMED[_p]["text"] += _R6_WBRIDGE
+_R6_HOLES = (" Round 6 (holes): writes and extending SFC_FILE_TRUNCATE beyond the end of the data: zero bytes decode to zero exactly for signed PCM / float / double (holeZeroFor, decode_zeros; u8, mu-law, A-law witnesses), "
+             "the bridge Sf.Handle -> Sf.Abs extended to geometries that claim holeZero (write_ref_hole, trunc_step_h, handle_run_accepted_holes; SfProps/C08Holes.lean); C08 campaign C = hole histories "
+             "(vlib/c08holes.py: gap-w, gap-rw, gap-end, gap-idle, ext-trunc on every RDWR container, both routes) judged by Sf.Abs.check with holezero=<ty>.")
+for _p in ("C05", "C06", "C08"):
+    CLAIMED[_p]["text"] += _R6_HOLES
 
 def main():
     checks = []
